@@ -116,9 +116,28 @@ def xml_ok(line, n, has_tc=False):
         bad.append("export_xml to a file: rc=%s, %s bytes, same bytes as the buffer variant=%s" % (f.get("fexport"), f.get("fsize"), f.get("fsame")))
     if f.get("fload") != "0" or f.get("fsamelist") != "1" or f.get("fref") != ref:
         bad.append("load_xml of the exported file: rc=%s same=%s" % (f.get("fload"), f.get("fsamelist")))
+    if "xapply" in f and f.get("load") == "0" and not (f["xapply"] == "0" and f.get("xrebuild") == "0/0" and f.get("xunapply") == "0" and f.get("xback") == "0/0"):
+        bad.append("the reloaded list applied to a copy of A: apply=%s, diff against B=%s, reverse apply=%s, diff against A=%s" % (
+            f["xapply"], f.get("xrebuild"), f.get("xunapply"), f.get("xback")))
     if f.get("fbad") != "-1" or f.get("lbad") != "-1":
         bad.append("export_xml to / load_xml from a path that cannot exist: rc=%s / %s" % (f.get("fbad"), f.get("lbad")))
     return "; ".join(bad) if bad else None
+
+
+def unsafe_for_libxml_import(case, dlines):
+    """known finding xml-bytes-libxml-import: the list holds a NAME/INFO string that XML 1.0 / UTF-8 cannot carry and
+    the libxml2 importer is in use"""
+    xb = next((l.split() for l in by_script.get(case, []) if l.startswith("xmlbackend ")), None)
+    imp = (xb[2] if len(xb) > 2 else xb[1]) if xb else "1"
+    if imp != "1":
+        return False
+    for l in dlines:
+        f = l.split()
+        if len(f) >= 7 and f[0] == "D" and f[1] == "a" and f[4] in ("name", "info"):
+            for tok in f[5:8]:
+                if tok.startswith("s") and G.xml_unsafe(bytes.fromhex(tok[1:])):
+                    return True
+    return False
 
 
 def evaluate(case, clines, mlines):
@@ -166,7 +185,9 @@ def evaluate(case, clines, mlines):
         n = int(xs["lines"][0].split()[1])
         tc_in = any(l.startswith("D tc") for l in by_script.get(case, []))
         why = xml_ok(next((l for l in xs["lines"] if l.startswith("xml ")), None), n, tc_in)
-        if why:
+        if why and unsafe_for_libxml_import(case, by_script.get(case, [])) and "load=-1" in " ".join(xs["lines"]):
+            viol.append(("xml-bytes-libxml-import", "list with a string XML 1.0/UTF-8 cannot carry (case %s): exported as is, the libxml2 importer rejects the document" % case))
+        elif why:
             m = re.match(r"xml-e(\d)-i(\d)-", case)
             key = "xml-roundtrip:%s-export-%s-import" % (("nolibxml", "libxml")[int(m.group(1))], ("nolibxml", "libxml")[int(m.group(2))]) if m else "xml-roundtrip:" + case
             viol.append((key, "diff XML round trip of a %d-entry list (case %s): %s" % (n, case, why)))
@@ -259,6 +280,8 @@ def evaluate(case, clines, mlines):
                 why = xml_ok(xl, n)
                 if xl is None:
                     classify("XML export/load of the diff did not return", "xml-crash")
+                elif why and unsafe_for_libxml_import(case, [l for l in L if l.startswith("D a")]) and " load=-1 " in xl:
+                    viol.append(("xml-bytes-libxml-import", "built diff with a string XML 1.0/UTF-8 cannot carry (case %s): exported as is, the libxml2 importer rejects the document" % case))
                 elif why:
                     classify("diff XML round trip: " + why, "xml-roundtrip")
         else:
@@ -339,7 +362,7 @@ def check(run, replay=None):
         for l in outp.split("\n"):
             if l.startswith("xml export=0"):
                 base = int(kv(l)["len"]) - 100
-        for xc in G.xml_cases(rng, base, run.tier) + G.xmlload_cases():
+        for xc in G.xml_cases(rng, base, run.tier) + G.xmlload_cases() + G.bytes_cases():
             cases.append((xc[0][5:], xc))
         # child lists of different length / content at one place, all four kinds, both directions
         stopos = G.shape_topos(C.REPO)
@@ -383,7 +406,7 @@ def check(run, replay=None):
         viol, diff = evaluate(name, cl, ml)
         res = [l for l in cl if KEEP.match(l)]
         nontriv = any(l.startswith("D ") for l in res)
-        kind = "shape" if name.startswith(("shape-", "filt-")) else "xmlload" if any(l.startswith("xmlload") for l in cl) else "misuse" if any(l.startswith("misuse") for l in cl) else "xml" if any(l.startswith("xmlhand") for l in cl) else ("hand" if any(l.startswith("hand") for l in res) else "pair")
+        kind = "bytes" if name.startswith("bytes-") else "shape" if name.startswith(("shape-", "filt-")) else "xmlload" if any(l.startswith("xmlload") for l in cl) else "misuse" if any(l.startswith("misuse") for l in cl) else "xml" if any(l.startswith("xmlhand") for l in cl) else ("hand" if any(l.startswith("hand") for l in res) else "pair")
         run.count("\n".join(res), nontrivial=nontriv, sample={"case": by_name.get(name, [])[:12], "impl": res[:6]}, kind=kind)
         for l in ml:
             if l.startswith("hyp A") or l.startswith("hypd") or l.startswith("hyph"):
